@@ -11,7 +11,13 @@
 (* matches (PegValues).  `env` binds, for @leftrec rules under growth,     *)
 (* <<rule, offset>> to the previous result of the growth.                  *)
 (***************************************************************************)
-EXTENDS PegValues
+EXTENDS PegValues, PegCorpus
+
+\* field tables of every rule of every corpus grammar (a constant: TLC evaluates it once)
+FieldTables ==
+  [i \in 1..Len(Grammars) |->
+     [ri \in 1..Len(Grammars[i].rules) |->
+        IF Grammars[i].rules[ri].kind = "rule" THEN RuleFields(Grammars[i], ri) ELSE <<>>]]
 
 DFail == [ok |-> FALSE, p |-> -1, ms |-> <<>>]
 DOk(p, ms) == [ok |-> TRUE, p |-> p, ms |-> ms]
@@ -125,7 +131,7 @@ DCharRule(g, t, ri, p) ==
 DBody(g, t, ri, p, env) ==
   LET r  == g.rules[ri]
       b  == DExpr(g, t, r.body, p, r.skip, env)
-      fs == RuleFields(g, ri)
+      fs == FieldTables[g.idx][ri]
   IN IF ~b.ok THEN [ok |-> FALSE, p |-> -1, v |-> <<>>]
      ELSE LET v == Build(g, t, ri, fs, b.ms, p, b.p) IN
           IF \A i \in 1..Len(r.checks) : CheckOracle(r.checks[i], v)
